@@ -1124,6 +1124,9 @@ pub fn run_history(cfg: &Cfg, kt: KeyType, ops: &[Op], opts: &RunOpts, cov: &mut
     out
 }
 
+/// number of re-executions a shrink may spend (small under Miri / valgrind)
+pub static SHRINK_BUDGET: std::sync::atomic::AtomicUsize = std::sync::atomic::AtomicUsize::new(400);
+
 /// Greedy delta-debugging of a failing history: keep removing chunks / single ops while a
 /// violation with the same (property, rule) persists.
 pub fn shrink(cfg: &Cfg, kt: KeyType, ops: &[Op], opts: &RunOpts, prop: &str, rule: &str) -> Vec<Op> {
@@ -1140,7 +1143,7 @@ pub fn shrink(cfg: &Cfg, kt: KeyType, ops: &[Op], opts: &RunOpts, prop: &str, ru
         return cur;
     }
     let mut chunk = cur.len() / 2;
-    let mut budget = 400;
+    let mut budget = SHRINK_BUDGET.load(std::sync::atomic::Ordering::Relaxed);
     while chunk >= 1 && budget > 0 {
         let mut i = 0;
         let mut progressed = false;
